@@ -209,12 +209,12 @@ func (g *UndirectedMatrix) setWeightedEdge(e graph.Edge, weight float64) {
 	if int64(int(tid)) != tid {
 		panic("simple: unavailable to node ID for dense graph")
 	}
+	// fid and tid are not greater than maximum int by this point.
+	g.mat.SetSym(int(fid), int(tid), weight)
 	if g.nodes != nil {
 		g.nodes[fid] = from
 		g.nodes[tid] = to
 	}
-	// fid and tid are not greater than maximum int by this point.
-	g.mat.SetSym(int(fid), int(tid), weight)
 }
 
 // Weight returns the weight for the edge between x and y if Edge(x, y) returns a non-nil Edge.
